@@ -133,6 +133,20 @@ Theorem C07_reload_equiv :
 Proof. exact reload_equiv. Qed.
 Print Assumptions C07_reload_equiv.
 
+(* The root hypothesis cannot be dropped: a stored manifest that is not a root of
+   index.json is lost by a reload.  This is the witness of the finding
+   "gc-drops-nested-manifest" (known_findings.d/C07.json, corpus/C07): before the fix
+   gcIndex removed the by-digest entry of manifests nested under a tagged root. *)
+Theorem C07_reload_equiv_without_roots_refuted :
+  exists content sok fuel roots g g' n,
+    Inv content g /\
+    (forall p, In p (g_nodes g) -> sok p = true) /\
+    (forall p, sok p = true -> content p <> [] -> In p (g_nodes g)) /\
+    load content sok fuel roots = (g', true) /\
+    ~ Permutation (predecessors g' n) (predecessors g n).
+Proof. exact reload_without_root_refuted. Qed.
+Print Assumptions C07_reload_equiv_without_roots_refuted.
+
 (* IndexAll / loadIndex / gcIndex terminate: for every finite universe closed under
    [content] and containing the roots (any shape, cycles included) some fuel completes
    the traversal, so [ok = true] above excludes no reachable situation. *)
